@@ -24,6 +24,18 @@ Proof.
   - apply Rmult_le_pos; [exact Hp|]. apply Rlt_le, Rinv_0_lt_compat. lra.
 Qed.
 
+(* draw_surface_nsphere: exactly on the sphere, direction kept *)
+Lemma surface_radius : forall (r : R) (g : list R),
+  0 <= r -> norm g <> 0 ->
+  norm (radial_point r g) = r /\ exists c : R, 0 <= c /\ radial_point r g = scale c g.
+Proof.
+  intros r g Hr Hg. split; [exact (radial_norm r g Hr Hg)|].
+  exists (r / norm g). split; [|reflexivity].
+  unfold Rdiv. apply Rmult_le_pos; [exact Hr|].
+  apply Rlt_le, Rinv_0_lt_compat.
+  destruct (norm_nonneg g) as [H|H]; [exact H|congruence].
+Qed.
+
 (* any radius function that is monotone in the uniform draw and hits the contour at the top of its range *)
 Lemma radial_bounded : forall (h : R -> R) (top bound u : R) (g : list R),
   (forall x y, x <= y -> h x <= h y) -> h top = bound -> u <= top -> 0 <= h u -> norm g <> 0 ->
